@@ -81,7 +81,10 @@ JudgeStep(e, pre) ==
       lax  == sr.kind = "instr" /\ ~sr.res.fired /\ ~Crashed(e) /\ FrameOK(pre.exec[1].v, PopN(pre, "exec", 1), e.post, FALSE)
       alts == IF sr.kind = "instr" THEN AltRand(pre.exec[1].v, PopN(pre, "exec", 1))
               ELSE IF sr.kind = "unknown" THEN <<UnknownAsName(pre)>> ELSE <<>>
-      ok   == ~Crashed(e) /\ (Matches(sr.res, e.post) \/ lax \/ \E k \in 1..Len(alts) : Matches(alts[k], e.post)) /\ e.ret = sr.done
+      \* step() "returns true if the execution stack is empty": on an empty stack (C02's clause), and - the other reading of its
+      \* doc comment - possibly already when the step it executed has emptied it; never while items are left
+      retok == IF sr.done THEN e.ret = TRUE ELSE (e.ret = FALSE \/ (e.ret = TRUE /\ ~Crashed(e) /\ e.post.exec = <<>>))
+      ok   == ~Crashed(e) /\ (Matches(sr.res, e.post) \/ lax \/ \E k \in 1..Len(alts) : Matches(alts[k], e.post)) /\ retok
       dev  == IF ok THEN "" ELSE FirstDev(DevStep(pre), e)
   IN [v |-> IF ok THEN "ok" ELSE IF dev # "" THEN "dev" ELSE IF Crashed(e) THEN "crash" ELSE "mismatch",
       subj |-> subj, owner |-> Owner(subj), dev |-> dev,
